@@ -1,5 +1,5 @@
 """C03 Real SVG (namespaced root) passes through with an identical XML infoset (mechanisms)."""
-from sa import rules as R
+from sa import rules as R, hirq
 from sa.prog import P, Callee, op_place, op_const, const_str
 from props import xmlsink as X
 
@@ -38,6 +38,7 @@ def run(prog, chk):
     qualified_names(prog, chk)
     attrmap_keys_verbatim(prog, chk)
     writer_is_read_only(prog, chk)
+    graphics_vocabulary(prog, chk)
     inner_events_guard(prog, chk)
     no_precheck(prog, chk)
     from props import strops
@@ -73,6 +74,15 @@ def bypass(prog, chk):
             pe.where(sb),
             f"on the real-SVG edge process_events only converts the input events and returns (local calls: {[c.split('::')[-1] for c in calls]})",
             f"processing steps are reachable for real SVG: {proc}",
+        )
+        edits = [c for c in calls if not ("From<svgdx::events::InputList>" in c or "as std::convert::From" in c or "Into" in c or c.endswith("::into") or c.endswith("::from"))]
+        chk.ob(
+            not edits,
+            "A13.bypass",
+            "process_events:real-svg-untouched",
+            pe.where(sb),
+            "on the real-SVG edge the input events are converted and returned as they are (no other library call)",
+            f"on the real-SVG edge process_events does more than convert the input events ({[c.split('::')[-1] for c in edits]}): a document that must pass through verbatim is edited (e.g. a configured style written onto its root)",
         )
         # the test is made only at the top level
         tl = _bool_call_gate(pe, lambda c: c.path == CTX + "::at_top_level")
@@ -305,6 +315,28 @@ def _only_from_param(b, local, param, depth=8):
             if a is None or [z for z in a[1] if z != "*"] or not _only_from_param(b, a[0], param, depth - 1):
                 return False
     return True
+
+
+GRAPHICS = {"circle", "ellipse", "image", "line", "path", "polygon", "polyline", "rect", "text", "use", "reuse"}
+
+
+def graphics_vocabulary(prog, chk):
+    """the element names handled as graphics elements (positioned shapes whose empty content means "empty element") are
+    the SVG 1.1 graphics elements plus svgdx's `reuse` - not containers such as a nested `svg`, whose content (and end
+    tag) must survive"""
+    b = prog.maybe_body("svgdx::element::SvgElement::is_graphics_element")
+    if b is None:
+        chk.anchor_missing("A15.graphics-vocabulary", "SvgElement::is_graphics_element not found")
+        return
+    chk.touch(b)
+    h = prog.hir[b.id]
+    lits = set()
+    for m, arms in hirq.str_matches(h):
+        for ls, a in arms:
+            for l in ls:
+                if l != hirq.WILD:
+                    lits.add(l)
+    chk.ob(lits == GRAPHICS, "A15.graphics-vocabulary", "is_graphics_element", b.where(), f"is_graphics_element() names exactly {sorted(GRAPHICS)}", f"is_graphics_element() names {sorted(lits)}: extra {sorted(lits - GRAPHICS)}, missing {sorted(GRAPHICS - lits)} - an extra name is a container treated as a shape (content and end tag can be dropped, also inside a namespaced <svg> that must pass through), a missing one is a shape treated as a container (not positioned)")
 
 
 def attrmap_keys_verbatim(prog, chk):
